@@ -1623,15 +1623,41 @@ def c08_ite(R):
     acc, cnd, val = inv.get("sofar"), inv.get("c"), inv.get("v")
     # a case may be dropped only when its value equals what the expression would yield without it, i.e. the
     # accumulated else-branch (not the default: an earlier case with the default's value still shadows later ones)
+    def equality_helper(call):
+        """a module-level helper f(a, b) whose every answer is an equality / identity of the same function of a and of b
+        (a == b under is_true, a is b, repr(a) == repr(b)): it says 'the same value' at least as strictly as == does"""
+        if not (isinstance(call, ast.Call) and isinstance(call.func, ast.Name) and call.func.id in m.functions and len(call.args) == 2):
+            return False
+        h = m.functions[call.func.id]
+        hp = [a.arg for a in h.args.args]
+        if len(hp) != 2:
+            return False
+        rets = [r.value for r in walk_no_nested(h) if isinstance(r, ast.Return) and r.value is not None]
+        for rv_ in rets:
+            inner_ = rv_.args[0] if isinstance(rv_, ast.Call) and (dotted(rv_.func) or "").split(".")[-1] == "is_true" and rv_.args else rv_
+            if not (isinstance(inner_, ast.Compare) and len(inner_.ops) == 1 and isinstance(inner_.ops[0], (ast.Eq, ast.Is))):
+                return False
+            l_, r_ = ast.unparse(inner_.left), ast.unparse(inner_.comparators[0])
+            if re.sub(rf"\b{hp[0]}\b", "_", l_) != re.sub(rf"\b{hp[1]}\b", "_", r_):
+                return False
+        # ... and it does not leave floating-point values to ==, under which -0.0 and +0.0 are one value
+        strict = [rv_ for rv_ in rets if isinstance(rv_, ast.Compare) and (isinstance(rv_.ops[0], ast.Is) or "repr(" in ast.unparse(rv_))]
+        return bool(rets) and bool(strict)
+
     for st in (x for x in ast.walk(loop) if isinstance(x, (ast.Continue, ast.Break))):
         facts = [(t, pol) for t, pol in guards.guards_of(st, stop=loop)]
         ok = False
+        eq_only = False
         for t, pol in facts:
+            if pol and equality_helper(t) and acc is not None and {ast.unparse(a_) for a_ in t.args} == {val, acc}:
+                ok = True
             inner = t.args[0] if isinstance(t, ast.Call) and (dotted(t.func) or "").split(".")[-1] == "is_true" and t.args else t
-            if pol and isinstance(inner, ast.Compare) and len(inner.ops) == 1 and isinstance(inner.ops[0], (ast.Eq, ast.Is)):
+            if pol and isinstance(inner, ast.Compare) and len(inner.ops) == 1 and isinstance(inner.ops[0], ast.Is):
                 sides = {ast.unparse(inner.left), ast.unparse(inner.comparators[0])}
                 if acc is not None and sides == {val, acc}:
                     ok = True
+            if pol and isinstance(inner, ast.Compare) and len(inner.ops) == 1 and isinstance(inner.ops[0], ast.Eq) and acc is not None and {ast.unparse(inner.left), ast.unparse(inner.comparators[0])} == {val, acc}:
+                eq_only = True
             # the other sound idiom: the case can never apply
             if pol and isinstance(t, ast.Call) and (dotted(t.func) or "").split(".")[-1] == "is_false" and t.args and ast.unparse(t.args[0]) == cnd:
                 ok = True
@@ -1640,9 +1666,14 @@ def c08_ite(R):
             m,
             st,
             "ite_cases skips a case only when its value equals the accumulated else-branch",
-            f"ite_cases drops a case under {[('' if p else 'not ') + ast.unparse(t) for t, p in facts]}: only a value equal to "
-            f"the accumulated else-branch can be skipped; skipping on any other test lets a later overlapping "
-            f"case answer where an earlier one should",
+            f"ite_cases drops a case under {[('' if p else 'not ') + ast.unparse(t) for t, p in facts]}: "
+            + (
+                "the values are compared with ==, which is IEEE equality for floating-point values - -0.0 == +0.0, and "
+                "ite_cases([(c, -0.0)], +0.0) returned the constant +0.0"
+                if eq_only
+                else "only a value equal to the accumulated else-branch can be skipped; skipping on any other test lets a later "
+                "overlapping case answer where an earlier one should"
+            ),
             construct="ite_cases skip condition",
         )
     # the same shape with the skip folded into the condition: `if not is_true(v == acc): acc = If(...)`
@@ -1666,24 +1697,57 @@ def c08_ite(R):
     R.check(len(rets) == 1 and ast.unparse(rets[0].value) == acc, m, ic, "ite_cases returns the accumulated expression", "ite_cases no longer returns the accumulated expression", construct="ite_cases result")
     idf = tree.func(BOOLAST, "ite_dict")
     bd = {}
+    # the keys may be compared through a local ordering function (the value a key stands for at the width of `i`): then
+    # on both sides of both partition tests, and as the sort key
+    order_fns = [n.name for n in idf.body if isinstance(n, ast.FunctionDef)]
+    frags = [
+        "dictLow = {c: v for c, v in d.items() if c <= split_val}\n"
+        "dictHigh = {c: v for c, v in d.items() if c > split_val}\n"
+        "valLow = ite_dict(i, dictLow, default)\n"
+        "valHigh = ite_dict(i, dictHigh, default)\n"
+        "return If(i <= split_val, valLow, valHigh)"
+    ] + [
+        f"dictLow = {{c: v for c, v in d.items() if {f}(c) <= {f}(split_val)}}\n"
+        f"dictHigh = {{c: v for c, v in d.items() if {f}(c) > {f}(split_val)}}\n"
+        "valLow = ite_dict(i, dictLow, default)\n"
+        "valHigh = ite_dict(i, dictHigh, default)\n"
+        "return If(i <= split_val, valLow, valHigh)"
+        for f in order_fns
+    ]
     R.check(
         # one fragment: it is normalised like the code (temporaries that are used once, right away, are read in place)
-        util.has_frag(
-            idf,
-            "dictLow = {c: v for c, v in d.items() if c <= split_val}\n"
-            "dictHigh = {c: v for c, v in d.items() if c > split_val}\n"
-            "valLow = ite_dict(i, dictLow, default)\n"
-            "valHigh = ite_dict(i, dictHigh, default)\n"
-            "return If(i <= split_val, valLow, valHigh)",
-            idf,
-            bd,
-        ),
+        any(util.has_frag(idf, fr, idf, bd) for fr in frags),
         m,
         idf,
         "ite_dict: keys <= pivot go to the then-branch of `i <= pivot`",
         "ite_dict partitions the keys with a different comparison than the If it builds",
         construct="ite_dict partition",
     )
+    used = [f for f in order_fns if f"{f}(split_val)" in ast.unparse(idf)]
+    if used:
+        f = used[0]
+        sorts = [c for c in _calls(idf) if (dotted(c.func) or "") in ("sorted",) or (isinstance(c.func, ast.Attribute) and c.func.attr == "sort")]
+        keyed = [c for c in sorts if any(k.arg == "key" and ast.unparse(k.value) == f for k in c.keywords)]
+        fdef = next(n for n in idf.body if isinstance(n, ast.FunctionDef) and n.name == f)
+        # the ordering function reduces an integer key modulo 2**width of the selector - the order `i <= key` compares in
+        reduces = any(isinstance(x, ast.BinOp) and isinstance(x.op, (ast.Mod, ast.BitAnd)) and ("length" in ast.unparse(x.right) or "size" in ast.unparse(x.right) or "len(" in ast.unparse(x.right)) for x in ast.walk(fdef))
+        R.check(
+            bool(keyed) and reduces,
+            m,
+            idf,
+            "ite_dict takes the median in the order the emitted comparison uses (keys modulo 2**width)",
+            "ite_dict orders its keys with a function that is not the sort key of the median, or that does not reduce a key modulo "
+            "the selector's width: `i <= key` compares unsigned modulo 2**n, and ite_dict(i4, {-2: 1, -1: 2, 0: 3, 1: 4}, 9) gave 9 at i = 0",
+            construct="ite_dict key order",
+        )
+    else:
+        R.bad(
+            m,
+            idf,
+            "ite_dict partitions integer keys in Python's order while `i <= key` compares unsigned modulo 2**n: a key written as a "
+            "negative number (or as 2**n and beyond) lands on the wrong side - ite_dict(i4, {-2: 1, -1: 2, 0: 3, 1: 4}, 9) gave 9 at i = 0",
+            construct="ite_dict key order",
+        )
     R.check(util.has_frag(idf, "ite_cases([(i == c, v) for c, v in d.items()], default)", idf), m, idf, "ite_dict small case: equality per key",
             "ite_dict small-table fallback changed", construct="ite_dict linear fallback")
     rv = tree.func(BOOLAST, "reverse_ite_cases")
